@@ -136,17 +136,24 @@ func checkParseInput(c *h.Ctx, in string, rule string) (accepted bool) {
 		c.Held("mustparse")
 	}
 	// Scan / UnmarshalText / UnmarshalBinary report the same failures wrapped in ErrScan.
-	if in != "" {
+	{
 		type un struct {
 			name string
 			f    func(p *path.Path) error
 		}
-		for _, u := range []un{
+		uns := []un{
 			{"Scan(string)", func(p *path.Path) error { return p.Scan(in) }},
 			{"Scan([]byte)", func(p *path.Path) error { return p.Scan([]byte(in)) }},
 			{"UnmarshalText", func(p *path.Path) error { return p.UnmarshalText([]byte(in)) }},
 			{"UnmarshalBinary", func(p *path.Path) error { return p.UnmarshalBinary([]byte(in)) }},
-		} {
+		}
+		if in == "" {
+			// Scan documents the empty value as SQL NULL (no path, no error);
+			// the unmarshalers have no such case: the empty text is not a path
+			uns = append(uns[2:], un{"UnmarshalText(nil)", func(p *path.Path) error { return p.UnmarshalText(nil) }},
+				un{"UnmarshalBinary(nil)", func(p *path.Path) error { return p.UnmarshalBinary(nil) }})
+		}
+		for _, u := range uns {
 			var q path.Path
 			var serr error
 			pan := ""
@@ -368,6 +375,10 @@ func runC04(c *h.Ctx) {
 	check := func(in, rule string) bool {
 		c.Journal(in)
 		return checkParseInput(c, in, rule)
+	}
+	// the empty and the blank inputs, through every entry point
+	for _, in := range []string{"", " ", "\t\n", "/**/", " /* c */ ", "strict", "lax ", "strict /* */"} {
+		check(in, "")
 	}
 
 	// (f) near-misses: every shard runs its share.
